@@ -676,7 +676,8 @@ fn fqd_case(c: &Case) -> Obs {
     }
 }
 
-/// known finding class `names-plus-sign-number-in-126th-token`: a name with at least 126 tokens
+/// former finding class `names-plus-sign-number-in-126th-token` (repaired by /repo fc00545; the tag is
+/// kept so that a recurrence is reported under its own name as a NEW failure): a name with at least 126 tokens
 /// (maximal runs of ASCII-alphanumeric / other bytes) whose 126th token -- the unsplit remainder --
 /// is '+' followed only by digits: the encoder's lexical_core::parse::<u32> accepts the sign, so
 /// the token is stored as a number and the '+' (and leading zeros) are lost.
@@ -1558,7 +1559,7 @@ fn generate(rng: &mut Rng, tier: &str, w: &mut CaseWriter) {
         if !want.is_empty() && *want.last().unwrap() != 0 {
             want.push(0);
         }
-        w.push("nmd", vec![hex(&enc), if names_plus_class(src) { "-".into() } else { hex(&want) }]);
+        w.push("nmd", vec![hex(&enc), hex(&want)]);
         if enc.len() > 10 {
             let cut = rng.range(1, enc.len() as u64 - 1) as usize;
             w.push("nmd", vec![hex(&enc[..cut]), "-".into()]);
